@@ -621,7 +621,7 @@ Definition is_loop (p : prim) : bool :=
 Definition eval_step (rec : expr -> state -> res) (e : expr) (s : state) : res :=
   let apply (vf va : val) (s : state) : res :=
     match vf with
-    | RecV fb xb body => rec (subst' fb vf (subst' xb va body)) s
+    | RecV fb xb body => rec (subst' xb va (subst' fb vf body)) s
     | PrimV p args =>
         let args' := args ++ [va] in
         if Nat.ltb (length args') (arity p) then RVal (PrimV p args') s
